@@ -64,10 +64,12 @@ theorem clone_horizon (t : StageDesc K) (T t0 : K) :
 def entryOK (e : String × Generated.CloneKind × Bool) : Bool :=
   e.2.1 != .missing &&
   (!(Generated.cloneMustSubstitute.contains e.1) || e.2.2) &&
-  (!(Generated.cloneMustDeepcopy.contains e.1) || e.2.1 == .deepcopy)
+  (!(Generated.cloneMustDeepcopy.contains e.1) || e.2.1 == .deepcopy) &&
+  (!(Generated.cloneMustNotShare.contains e.1) || e.2.1 != .shared)
 
 /-- **every container of the template reaches the clone** (nothing is dropped), **nested containers
-are deep-copied** (clones and template share no mutable list) and **every container whose expressions
+are deep-copied** (clones and template share no mutable list), **no table an instance writes to — parameter values, derivative scales,
+guesses, right-hand sides, constraints — is shared by reference** and **every container whose expressions
 can mention the template's `t`, `T`, `t0` or other placeholders goes through the substitution that
 renews them** — decided over the table extracted from `Stage.clone` as it is now -/
 theorem clone_table_ok : Generated.cloneTable.all entryOK = true := by decide
